@@ -131,6 +131,9 @@ META["rule"] += (
 META["rule"] += (
     " " + 'Added after the fifth round: the whole-node-set limits also with all nodes listed in another order; internal_global_clustering on directed networks (mean over the group of local_clustering()) and against global_clustering() on the whole set.')
 
+META["rule"] += (
+    " " + 'Added after the sixth round: every evaluation compares the node lists handed over with what was meant (a measure reads them).')
+
 RT = 1e-10
 LW = "lw"
 
@@ -484,6 +487,9 @@ class Case:
         aa, bb = self.args(a, b if arity == 2 else None, as_array)
         okc, val = self.ctx.call(lib, G.net, aa, bb, la)
         self.ctx.evals()
+        # the node lists are the caller's: a measure reads them
+        if list(aa) != list(a) or (bb is not None and list(bb) != list(b)):
+            return "edits-the-caller's-node-list", val, want
         if not okc:
             return "raises:" + type(val).__name__, val, want
         atol = 0.0
